@@ -16,8 +16,11 @@ import time
 from . import tlc as T
 
 VERIF = T.VERIF
-EVID = os.path.join(VERIF, "evidence")
-REPLAYS = os.path.join(VERIF, "replays")
+# runs against another source tree (VERIF_REPO_SRC: seeded changes in scratch worktrees) must not overwrite the
+# evidence / replays of the real tree
+_ALT = bool(os.environ.get("VERIF_REPO_SRC"))
+EVID = os.path.join(VERIF, ".work", "evidence_alt") if _ALT else os.path.join(VERIF, "evidence")
+REPLAYS = os.path.join(VERIF, ".work", "replays_alt") if _ALT else os.path.join(VERIF, "replays")
 KNOWN = os.path.join(VERIF, "known_findings.json")
 COMMON = os.path.join(T.SPECS, "common")
 LIB = ["-DTLA-Library=" + COMMON]
